@@ -8,3 +8,8 @@ package display
 //@   trusted cancels hints and the completion menu (ui.Hint.Reset, completion.Engine.ClearMenu); touches neither the line, the cursor, the selection nor the registers
 //@   requires e != nil
 //@   assigns anyof("ui.Hint", "*"), anyof("completion.Engine", "*"), anyof("keymap.Engine", "local")
+
+//@ func (*Engine).AcceptLine
+//@   trusted terminal output only (moves the terminal cursor below the line, reprints the right prompt); recomputes the display engine's own coordinates; touches neither the line, the cursor, the selection, the registers nor the history (A-COMPONENTS)
+//@   requires e != nil
+//@   assigns anyof("display.Engine", "*"), anyof("ui.Prompt", "*")
